@@ -62,12 +62,11 @@ def closure(vfile):
     if f in seen or not f.exists(): continue
     seen.append(f)
     txt = f.read_text()
-    for m in re.finditer(r'From\s+PV\s+Require\s+(?:Import|Export)?\s*([^.]*(?:\.[A-Za-z][^.\s]*)*)\.', txt):
-      pass
-    for line in re.findall(r'From\s+PV\s+Require\s+(?:Import\s+|Export\s+)?((?:[A-Za-z0-9_\.]+\s*)+)\.(?:\s|$)', txt):
+    MOD = r'[A-Za-z0-9_]+(?:\.[A-Za-z0-9_]+)*'
+    for line in re.findall(r'From\s+PV\s+Require\s+(?:Import\s+|Export\s+)?((?:' + MOD + r'\s*)+)\.(?=\s|$)', txt):
       for mod in line.split():
         todo.append(COQ / 'theories' / (mod.replace('.', '/') + '.v'))
-    for line in re.findall(r'(?<!From PV )Require\s+(?:Import\s+|Export\s+)?((?:PV\.[A-Za-z0-9_\.]+\s*)+)\.(?:\s|$)', txt):
+    for line in re.findall(r'(?<!From PV )Require\s+(?:Import\s+|Export\s+)?((?:PV\.' + MOD + r'\s*)+)\.(?=\s|$)', txt):
       for mod in line.split():
         todo.append(COQ / 'theories' / (mod[3:].replace('.', '/') + '.v'))
   return seen
